@@ -248,6 +248,18 @@ def answered_input(answer='exit'):
         builtins.input = old
 
 
+def call_limits(s, G, E, new, rng_style):
+    """SetEvaluationLimits in one of its call styles: positional, the documented keywords, the backward-compatible aliases maxiter / maxfun, or a mix
+    (aliases only for totals: with new=True the aliases are not documented to count from now)"""
+    style = rng_style if not new else (rng_style if rng_style in ('positional', 'keywords') else 'positional')
+    if style == 'keywords': return s.SetEvaluationLimits(generations=G, evaluations=E, new=new)
+    if style == 'alias': return s.SetEvaluationLimits(maxiter=G, maxfun=E)
+    if style == 'mixed_a': return s.SetEvaluationLimits(generations=G, maxfun=E)
+    if style == 'mixed_b': return s.SetEvaluationLimits(maxiter=G, evaluations=E)
+    if style == 'mixed_c': return s.SetEvaluationLimits(G, maxfun=E)
+    return s.SetEvaluationLimits(G, E, new=new)
+
+
 def tap_step(s, led):
     """wrap the bound Step on the instance so Steps made inside Solve() are bracketed too"""
     real = s.Step
@@ -365,6 +377,7 @@ def gen_program(rng, focus):
     cfg['savefreq'] = rng.random() < 0.6
     cfg['ops'] = ops
     if rng.random() < 0.15: cfg['extra_args'] = [rng.choice([0.5, -1.0, 3.0])]
+    cfg['limit_style'] = rng.choice(['positional', 'positional', 'keywords', 'alias', 'mixed_a', 'mixed_b', 'mixed_c'])
     return cfg
 
 
@@ -477,7 +490,7 @@ def run_program(cfg, obs, focus, tmpdir):
                 if k != 'solve_default':           # 'solve_default': Solve under whatever limits are in force (possibly never set)
                     G, E = op[1], op[2]
                     new = op[3] if k == 'solve' else True
-                    s.SetEvaluationLimits(G, E, new=new)
+                    call_limits(s, G, E, new, cfg.get('limit_style', 'positional'))
                     led.set_limits(s, G, E, new)
                 if k == 'solve_exit':
                     s.enable_signal_handler()
@@ -523,7 +536,7 @@ def run_program(cfg, obs, focus, tmpdir):
                 if led.stop_msg and 'EvaluationLimits' in str(led.stop_msg): stopped_by_limit = True
             elif k == 'limits':
                 G, E, new = op[1], op[2], op[3]
-                s.SetEvaluationLimits(G, E, new=new)
+                call_limits(s, G, E, new, cfg.get('limit_style', 'positional'))
                 led.set_limits(s, G, E, new)
             elif k == 'penalty':
                 s.SetPenalty(K.make_penalty(op[1]) if op[1] else None); nreconf += 1
